@@ -192,6 +192,15 @@ func (g *Gen) callFuncValue(e *Ev, fv Term, sig *types.Signature, args []Term, n
 		actuals = append(actuals, fv)
 	}
 	actuals = append(actuals, args...)
+	{
+		bind := map[string]Term{}
+		for k := range pnames {
+			if k < len(actuals) {
+				bind["arg_"+pnames[k]] = actuals[k]
+			}
+		}
+		e.checkCallsite(key, n, bind)
+	}
 	if len(pnames) != len(actuals) {
 		return e.errorf(n, "functype %s: %d names for %d actuals", hdr, len(pnames), len(actuals))
 	}
